@@ -7,7 +7,8 @@ CONSTANTS NA, NB, Emit         \* residues in chain A / chain B of the base labe
 VARIABLES desc, lab
 vars == <<desc, lab>>
 Base == [k \in 1..(NA + NB) |-> IF k <= NA THEN <<"A", 10 + k, " ">> ELSE <<"B", 10 + (k - NA), " ">>]
-ChainMaps == { [A |-> "A", B |-> "B"], [A |-> "B", B |-> "A"], [A |-> " ", B |-> "B"], [A |-> "X", B |-> "Y"] }
+ChainMaps == { [A |-> "A", B |-> "B"], [A |-> "B", B |-> "A"], [A |-> " ", B |-> "B"], [A |-> "X", B |-> "Y"],
+               [A |-> "A", B |-> "a"] }       \* identifiers are case-sensitive single characters
 Shifts == {0, 100, -40, -11, 3, 1000, -1000}      \* 3: chain B starts at the number chain A ends with (Base: A 11..14, B 11..13)
 Modes == {"none", "sequential", "twinsA", "twinsB", "twinsStartA", "codeA", "codeB"}
 Descs == [cm : ChainMaps, sa : Shifts, sb : Shifts, mode : Modes]
